@@ -178,3 +178,10 @@ def check_case(case) -> Obs:
     if not triples:
         obs.cls("empty")
     return obs
+
+
+def extra_campaign(tier, seed, shard, nshards, st, known):
+    """Thorough tier: a coverage-guided libFuzzer campaign (atheris) over byte strings decoded into cases of this module."""
+    from vf.fuzzrun import campaign
+
+    campaign(PID, tier, seed, shard, nshards, st, known, runs=20000, seeds_corpus=[b"\x02\x03\x05\x07\x04\x00\x01\x01\x00\x10\x00\x00"])
